@@ -54,8 +54,13 @@ fn match_ph(b: &[u8], i: usize, boundary: &[u8]) -> Option<(Value, usize)> {
     if !lit(&mut p, b"\r\n--") || !lit(&mut p, boundary) || !lit(&mut p, b"\r\n") {
         return None;
     }
-    if !lit(&mut p, b"Content-Range: bytes ") {
-        return None;
+    // field names are case-insensitive
+    {
+        let name = b"content-range: bytes ";
+        if b.len() < p + name.len() || !b[p..p + name.len()].eq_ignore_ascii_case(name) {
+            return None;
+        }
+        p += name.len();
     }
     let e = take_digits(b, p);
     let a = parse_u64_canonical(&b[p..e])?;
